@@ -9,6 +9,10 @@ import traceback
 from . import core
 
 BUDGET = {
+    'C01': (2500, 120000),
+    'C02': (1500, 60000),
+    'C06': (1200, 40000),
+    'C07': (700, 20000),
     # property: (quick cases, thorough cases)
     'C11': (1500, 40000),
     'C13': (1500, 40000),
